@@ -12,6 +12,10 @@ def hooks_commits():
 
 # id -> dict(engine, category, technique, text, note, design_ref)
 CHECKS = {
+ "C09": dict(engine="h_filt", category="exploration", design="§3 C09",
+   technique="exhaustive enumeration of a finite configuration matrix (wrapper x nesting x position x method) on statically typed stacks, one fresh process per cell, absolute + differential oracle",
+   text="Every generated stack (1-5 recording layers over the Registry or an id-changing recording collector; each of Box, Box<dyn>, Some, vec![_], reload::Subscriber, and_then(Identity) at every position, every nested pair, None / empty Vec at every position, Box/Arc/Box<dyn>/Arc<dyn> around the base collector and around the whole stack; Box<dyn>/Arc<dyn>/Some/reload around a per-layer filter incl. nested pairs) x {interest always, sometimes} x {no veto, enabled-veto by layer k, event_enabled-veto by layer k} runs one workload that exercises every Collect/Subscribe/Filter method; each layer must log each notification exactly once per occurrence, inner before outer, vetoes stop delivery to all, and each layer's view must equal its view in the unwrapped stack.",
+   note="The matrix is finite and enumerated completely (counts in the evidence). Filtered(accept-all) is not one of the property's pass-through wrappers and is not in the matrix. Defects F4-F7, F14, F15 found by this check were repaired by fix: commits and are reported again if they return."),
  "C20": dict(engine="h_fmt", category="exploration", design="§3 C20",
    technique="exhaustive sweep of a finite instant set through the real format_time entry point (clock seam), compared with an independent integer calendar algorithm",
    text="Complete sweeps, not samples: every day of years 0001-9999 at three times of day, every second in windows around year ends, leap days, century and 400-year boundaries and the epoch, a sub-second grid on both sides of the epoch and of the 4-digit range, and +-2^k seconds out to the extremes; every output is compared field by field with an independent days-to-civil algorithm (cross-checked against the time crate) and consecutive outputs must not decrease.",
